@@ -91,7 +91,7 @@ CLAIMED = {
             "DESIGN.md §3 C15"),
     "C16": ("exploration",
             "repeated-execution monitor: byte comparison of canonical serialisations (every list-valued query in returned order) across K in-process repetitions, A-alone vs A-interleaved-with-B isolation runs, constants canary",
-            "The same transaction runs K=30 (quick) / 200 (thorough) times on equal pre-state in fresh EVMs in one process; return data, gas, error, state root, logs, full call tree, balance journals, every Children/ChildrenIndices/IndicesOfChanges/ChildrenOf result in returned order and the complete hook dump must be byte-identical. An unrelated execution B (other EVM/state, possibly other extra EIPs on the same fork) run to completion in the middle of A's execution and afterwards must not change A's or B's answers; shared 256-bit constants are compared with their initial values after every case. Hygiene programs (callees that underflow, fill the stack to 1024, read unwritten memory, around a callee leaving a deep stack and large memory) and a precompile-set isolation pair (B built on another fork in the middle of A) are included.",
+            "The same transaction runs K=30 (quick) / 200 (thorough) times on equal pre-state in fresh EVMs in one process; return data, gas, error, state root, logs, full call tree, balance journals, every Children/ChildrenIndices/IndicesOfChanges/ChildrenOf result in returned order and the complete hook dump must be byte-identical. An unrelated execution B (other EVM/state, possibly other extra EIPs on the same fork) run to completion in the middle of A's execution and afterwards must not change A's or B's answers; shared 256-bit constants are compared with their initial values after every case. Hygiene programs (callees that underflow, fill the stack to 1024, read unwritten memory, around a callee leaving a deep stack and large memory) and a precompile-set isolation pair (B built on another fork in the middle of A) are included; the journal-heavy programs place several keys of different types at one location (struct and first members) and the serialisation includes the by-slot query under an unregistered type id.",
             "Map-order dependence is sampled statistically (Go re-randomises per range statement); interleaving is at step granularity in one goroutine (true concurrency is C17).",
             "DESIGN.md §3 C16"),
     "C03": ("exploration",
